@@ -156,6 +156,24 @@ class WholePopulationGenerator(pyhms.sprout.sprout_generators.SproutCandidatesGe
                 for level in tree.levels[:-1] for deme in level if deme.is_active}
 
 
+class PromisingFirstGenerator(pyhms.sprout.sprout_generators.SproutCandidatesGenerator):
+    """User-defined generator: the best individual of every active non-leaf deme, the parents listed most promising
+    first (so the keys of the returned dict are not grouped by level)."""
+
+    def __call__(self, tree):
+        from pyhms.sprout.sprout_candidates import DemeCandidates, DemeFeatures
+
+        import random as _r
+
+        demes = [deme for level in tree.levels[:-1] for deme in level if deme.is_active]
+        demes.sort(key=lambda d: d.best_current_individual, reverse=True)
+        if tree.metaepoch_count % 2:
+            # every other round: a fair (shuffled) order, from a private generator
+            _r.Random(7919 * len(demes) + tree.metaepoch_count).shuffle(demes)
+        return {deme: DemeCandidates(individuals=[deme.best_current_individual], features=DemeFeatures())
+                for deme in demes}
+
+
 class FunctionalFilter(pyhms.sprout.sprout_filters.DemeLevelCandidatesFilter):
     """User-defined filter written in functional style: returns a NEW dict with NEW DemeCandidates objects
     (keeping every candidate whose first coordinate is inside the box - i.e. all of them)."""
@@ -219,12 +237,28 @@ def build_user_objective(plan, stack_index=0):
     spec = objective_spec(plan, stack_index)
     form = plan.get("objective_form", "closure")
     pure = objectives.make_pure(spec)
+    rt = plan.get("return_type")
+    if rt == "np.float64":  # what `np.sum(x ** 2)` gives
+        pure0 = pure
+        pure = lambda x: np.float64(pure0(x))  # noqa: E731
+    elif rt == "np0d":  # a 0-d array, e.g. `np.asarray(model(x)).squeeze()`
+        pure1 = pure
+        pure = lambda x: np.array(pure1(x))  # noqa: E731
     if form == "closure":
         return pure
     if form == "lambda":
         return lambda x: pure(x)  # noqa: E731
     if form == "callable":
         return CallableObjective(spec)
+    if form == "main_def":
+        # the objective is a plain `def` of the running script (module __main__), as in every example script
+        import __main__
+
+        ns = __main__.__dict__
+        k = len([n for n in ns if n.startswith("_hmssim_pure_")])
+        ns["_hmssim_pure_%d" % k] = pure
+        exec("def user_objective(x):\n    return _hmssim_pure_%d(x)\n" % k, ns)
+        return ns.pop("user_objective")
     if form == "global_counter":
         # a by-value function (dill pickles nested functions by value) with a side effect on module-level state
         def counting(x):
@@ -235,7 +269,26 @@ def build_user_objective(plan, stack_index=0):
     raise ValueError(form)
 
 
+_NP_INTS = [False]
+
+
+def I(x):  # noqa: E743
+    """Integer parameters as the user wrote them: Python ints, or numpy integers (`np.arange`, `rng.integers`)."""
+    return np.int64(int(x)) if _NP_INTS[0] else int(x)
+
+
 def build_bounds(plan):
+    if plan.get("bounds_int"):
+        return np.array([(int(lo), int(hi)) for lo, hi in plan["box"]])
+    form = plan.get("bounds_form")
+    if form == "readonly_view":
+        # a read-only, non-contiguous view of a larger table (columns 0 and 2 of a (d, 4) array)
+        full = np.array([[float(lo), -1.0, float(hi), -2.0] for lo, hi in plan["box"]], dtype=float)
+        b = full[:, ::2]
+        b.setflags(write=False)
+        return b
+    if form == "fortran":
+        return np.asfortranarray(np.array([[float(lo), float(hi)] for lo, hi in plan["box"]], dtype=float))
     return np.array([[float(lo), float(hi)] for lo, hi in plan["box"]], dtype=float)
 
 
@@ -285,9 +338,9 @@ def build_lsc(spec, share_key=None):
 def _build_lsc(spec):
     k = spec["kind"]
     if k == "metaepoch_limit":
-        return MetaepochLimit(int(spec["limit"]))
+        return MetaepochLimit(I(spec["limit"]))
     if k == "fitness_steadiness":
-        return FitnessSteadiness(float(spec["max_deviation"]), int(spec["n_metaepochs"]))
+        return FitnessSteadiness(float(spec["max_deviation"]), I(spec["n_metaepochs"]))
     if k == "all_children_stopped":
         return AllChildrenStopped()
     if k == "dont_stop":
@@ -295,7 +348,7 @@ def _build_lsc(spec):
     if k == "dont_run":
         return DontRun()
     if k == "eval_budget":
-        return EvalBudgetLSC(int(spec["n"]))
+        return EvalBudgetLSC(I(spec["n"]))
     raise ValueError(k)
 
 
@@ -310,20 +363,20 @@ def build_level(spec, problem, share_key=None):
                 kw[name] = spec[name]
         cfg_cls = CustomEAConfig if spec.get("custom_derived") else EALevelConfig
         return cfg_cls(
-            pop_size=int(spec["pop_size"]),
+            pop_size=I(spec["pop_size"]),
             problem=problem,
             lsc=lsc,
-            generations=int(spec["generations"]),
+            generations=I(spec["generations"]),
             ea_class=EA_CLASSES[spec["ea"]],
             sample_std_dev=float(spec.get("sample_std_dev", 1.0)),
             **kw,
         )
     if e == "de":
         return DELevelConfig(
-            pop_size=int(spec["pop_size"]),
+            pop_size=I(spec["pop_size"]),
             problem=problem,
             lsc=lsc,
-            generations=int(spec["generations"]),
+            generations=I(spec["generations"]),
             sample_std_dev=float(spec.get("sample_std_dev", 1.0)),
             dither=bool(spec.get("dither", False)),
             scaling=float(spec.get("scaling", 0.8)),
@@ -331,10 +384,10 @@ def build_level(spec, problem, share_key=None):
         )
     if e == "shade":
         return SHADELevelConfig(
-            pop_size=int(spec["pop_size"]),
+            pop_size=I(spec["pop_size"]),
             problem=problem,
             lsc=lsc,
-            generations=int(spec["generations"]),
+            generations=I(spec["generations"]),
             memory_size=int(spec.get("memory_size", 5)),
             sample_std_dev=float(spec.get("sample_std_dev", 1.0)),
         )
@@ -343,44 +396,44 @@ def build_level(spec, problem, share_key=None):
         if spec.get("set_stds"):
             kw["set_stds"] = True
         if spec.get("sigma0") is None and spec.get("sigma0_omitted"):
-            return CMALevelConfig(problem=problem, lsc=lsc, generations=int(spec["generations"]), **kw)
-        return CMALevelConfig(problem=problem, lsc=lsc, generations=int(spec["generations"]),
+            return CMALevelConfig(problem=problem, lsc=lsc, generations=I(spec["generations"]), **kw)
+        return CMALevelConfig(problem=problem, lsc=lsc, generations=I(spec["generations"]),
                               sigma0=spec.get("sigma0"), **kw)
     if e == "local":
         kw = {}
         if spec.get("maxiter") is not None:
-            kw["maxiter"] = int(spec["maxiter"])
+            kw["maxiter"] = I(spec["maxiter"])
         return LocalOptimizationConfig(problem=problem, lsc=lsc, **kw)
     if e == "lhs":
-        return LHSLevelConfig(problem=problem, lsc=lsc, pop_size=int(spec["pop_size"]))
+        return LHSLevelConfig(problem=problem, lsc=lsc, pop_size=I(spec["pop_size"]))
     if e == "sobol":
-        return SobolLevelConfig(problem=problem, lsc=lsc, pop_size=int(spec["pop_size"]))
+        return SobolLevelConfig(problem=problem, lsc=lsc, pop_size=I(spec["pop_size"]))
     if e == "custom" and spec.get("custom_fine"):
-        return CustomFineConfig(problem=problem, lsc=lsc, pop_size=int(spec["pop_size"]))
+        return CustomFineConfig(problem=problem, lsc=lsc, pop_size=I(spec["pop_size"]))
     if e == "custom":
-        return CustomLevelConfig(problem=problem, lsc=lsc, pop_size=int(spec["pop_size"]))
+        return CustomLevelConfig(problem=problem, lsc=lsc, pop_size=I(spec["pop_size"]))
     raise ValueError(e)
 
 
 def build_gsc(spec, stack_layers):
     k = spec["kind"]
     if k == "metaepoch_limit":
-        return MetaepochLimit(int(spec["limit"]))
+        return MetaepochLimit(I(spec["limit"]))
     if k == "fitness_eval_limit":
         w = spec.get("weights", "equal")
         if spec.get("weights_as_str") and w in ("equal", "root"):
-            return FitnessEvalLimitReached(int(spec["limit"]), str(w))  # the documented plain-string form
+            return FitnessEvalLimitReached(I(spec["limit"]), str(w))  # the documented plain-string form
         if w == "equal":
             w = WeightingStrategy.EQUAL
         elif w == "root":
             w = WeightingStrategy.ROOT
         elif w == "default":
-            return FitnessEvalLimitReached(int(spec["limit"]))
-        return FitnessEvalLimitReached(int(spec["limit"]), w)
+            return FitnessEvalLimitReached(I(spec["limit"]))
+        return FitnessEvalLimitReached(I(spec["limit"]), w)
     if k == "singular_eval_limit":
-        return SingularProblemEvalLimitReached(int(spec["limit"]))
+        return SingularProblemEvalLimitReached(I(spec["limit"]))
     if k == "precision":
-        layers = stack_layers[int(spec["stack"])]
+        layers = stack_layers[I(spec["stack"])]
         for p in layers:
             if isinstance(p, PrecisionCutoffProblem):
                 return SingularProblemPrecisionReached(p)
@@ -390,7 +443,7 @@ def build_gsc(spec, stack_layers):
     if k == "all_stopped":
         return AllStopped()
     if k == "no_active_nonroot":
-        return NoActiveNonrootDemes(int(spec["n"]))
+        return NoActiveNonrootDemes(I(spec["n"]))
     if k == "dont_run":
         return DontRun()
     raise ValueError(k)
@@ -413,16 +466,16 @@ def _build_sprout(spec):
     if spec.get("factory") == "nbc" and spec.get("positional"):
         # the documented signature allows the four arguments to be given positionally
         return get_NBC_sprout(float(spec["gen_dist_factor"]), float(spec["trunc_factor"]),
-                              float(spec["fil_dist_factor"]), int(spec["level_limit"]))
+                              float(spec["fil_dist_factor"]), I(spec["level_limit"]))
     if spec.get("factory") == "nbc":
         return get_NBC_sprout(
             gen_dist_factor=float(spec["gen_dist_factor"]),
             trunc_factor=float(spec["trunc_factor"]),
             fil_dist_factor=float(spec["fil_dist_factor"]),
-            level_limit=int(spec["level_limit"]),
+            level_limit=I(spec["level_limit"]),
         )
     if spec.get("factory") == "simple":
-        return get_simple_sprout(float(spec["far_enough"]), level_limit=int(spec["level_limit"]))
+        return get_simple_sprout(float(spec["far_enough"]), level_limit=I(spec["level_limit"]))
     g = spec["generator"]
     if g["kind"] == "best":
         gen = BestPerDeme()
@@ -432,6 +485,8 @@ def _build_sprout(spec):
         gen = NBCGeneratorWithLocalMethod(float(g["distance_factor"]), float(g["truncation_factor"]))
     elif g["kind"] == "whole_population":
         gen = WholePopulationGenerator()
+    elif g["kind"] == "promising_first":
+        gen = PromisingFirstGenerator()
     else:
         raise ValueError(g["kind"])
     dfs = []
@@ -459,6 +514,7 @@ def _build_sprout(spec):
 
 
 def build_config(plan):
+    _NP_INTS[0] = bool(plan.get("np_ints"))
     bounds = build_bounds(plan)
     tops = []
     stack_layers = []
